@@ -11,7 +11,7 @@ from hcommon import JobResult
 from interp import Panic, Unsupported
 from jobs_struct import PATHS, f_, slice_ref
 from lazy import InputNode, Policy
-from values import (UNIT, Adt, Arr, BoxV, Cell, FnV, Lazy, Ref, Sc, SetV, Tup, VecV, bv, deep_clone, is_sym)
+from values import (UNIT, Adt, Arr, BoxV, Cell, FnV, Lazy, Opaque, Ref, Sc, SetV, Tup, VecV, bv, deep_clone, is_sym)
 
 # RFC 8152 section 2, Table 1 (independent of coset's constants)
 REGISTERED_TAG = {"CoseSign": 98, "CoseSign1": 18, "CoseEncrypt": 96, "CoseEncrypt0": 16, "CoseMac": 97, "CoseMac0": 17}
@@ -677,5 +677,174 @@ def spine_job(eng, tables, prop, max_level, deadline, max_paths=None, initial=No
                                              "predicted": "MISMATCH", "compare": "startswith"})
     finally:
         sys.setrecursionlimit(old)
+    job.extra["finding_counts"] = seen
+    return job
+
+
+# ------------------------------------------------------------------------------- raw tag heads (C13 / C14)
+
+HEAD_WIDTHS = (1, 2, 3, 5, 9, 17, 33)
+_INFO_OF_WIDTH = {2: 24, 3: 25, 5: 26, 9: 27}
+
+
+def classify_head(ctx, head):
+    """The first bytes of an input, read as CBOR (RFC 8949 section 3): 'tag' if they are exactly one
+    well-formed tag head (-> 64-bit tag number), 'invalid' if the first byte can start no item
+    (reserved additional information 28..30, or 31 with a major type that has no indefinite form);
+    every other byte pattern is outside this job's input family (the path is dropped)."""
+    from interp import Infeasible
+    b0 = bv(head[0])
+    major, info = z3.LShR(b0, 5), b0 & 0x1f
+    j = len(head)
+    if j == 1:
+        a = z3.And(major == 6, z3.ULT(info, 24))
+    elif j in _INFO_OF_WIDTH:
+        a = z3.And(major == 6, info == _INFO_OF_WIDTH[j])
+    else:
+        a = z3.BoolVal(False)
+    b = z3.Or(z3.And(z3.UGE(info, 28), z3.ULE(info, 30)),
+              z3.And(info == 31, z3.Or(major == 0, major == 1, major == 6)))
+    k = ctx.choose_cond([a, b, z3.Not(z3.Or(a, b))], "head-class")
+    if k == 2:
+        raise Infeasible("input family")
+    if k == 1:
+        return "invalid", None
+    if j == 1:
+        return "tag", z3.ZeroExt(56, info)
+    t = bv(head[1])
+    for x in head[2:]:
+        t = z3.Concat(t, bv(x))
+    return "tag", z3.simplify(z3.ZeroExt(64 - t.size(), t) if t.size() < 64 else t)
+
+
+def head_parse(eng, ctx, seq, rd):
+    """Parser stub for `modelled bytes ++ opaque body` (see classify_head): a well-formed tag head
+    followed by the body parses to Tag(number, parse(body)); an impossible first byte is a syntax
+    error; with no modelled bytes left it is the ordinary stub on the body."""
+    j = 0
+    while j < len(seq.elems) and not isinstance(seq.elems[j], Opaque):
+        j += 1
+    if len(seq.elems) != j + 1:
+        raise Unsupported("raw input with more than one opaque segment")
+    tail = VecV(None, seq.elems[j], "vec")
+    if j == 0:
+        cell = Cell(Ref(Cell(tail)))
+        r = models.stub_from_reader(eng, ctx, [Ref(cell)])
+        rd.set(cell.v)
+        return r
+    cls, t = classify_head(ctx, seq.elems[:j])
+    if cls == "invalid":
+        return Adt("Result", "Err", [Adt("de::Error", "Syntax", [Sc("usize", 0)])])
+    cell = Cell(Ref(Cell(tail)))
+    r = models.stub_from_reader(eng, ctx, [Ref(cell)])
+    rd.set(cell.v)
+    if r.variant != "Ok":
+        return r
+    cache = ctx.side.setdefault("head_nodes", {})
+    key = (j, tail.opaque.ident)
+    if key not in cache:
+        node = InputNode("tagged(%s)" % (tail.opaque.ident,), eng.policy)
+        child = r.fields[0].node
+        preset(node, "Tag", tag=t, child=child)
+        cache[key] = node
+    return Adt("Result", "Ok", [Lazy(cache[key])])
+
+
+def head_job(eng, tables, prop, tname, policy, deadline, max_paths=None, initial=None, bfs=False, slice_s=None):
+    """Byte-level entry points on raw inputs whose first 1..33 bytes are symbolic and whose remainder
+    is an opaque body: every tag-head encoding (all widths, all 64-bit numbers, non-minimal forms)
+    and every impossible first byte.  from_tagged_slice accepts iff the head is one well-formed tag
+    head carrying the registered number and the body is a complete item the untagged decoder
+    accepts (same value); from_slice never accepts such an input."""
+    from interp import Infeasible, OpaqueRead
+    if isinstance(policy, dict):
+        policy = Policy(**policy)
+    path = PATHS[tname]
+    job = JobResult("head:%s" % tname)
+    seen = {}
+    TAG = REGISTERED_TAG[tname]
+
+    def harness(ctx):
+        eng.policy = policy
+        use_tag = ctx.choose(2, "tagged") == 1
+        k = HEAD_WIDTHS[ctx.choose(len(HEAD_WIDTHS), "head-width")]
+        head = [Sc("u8", ctx.fresh_bv("head[%d]" % i, 8)) for i in range(k)]
+        tail = ctx.fresh_opaque("body", "vec", nonempty=True)
+        data = VecV(head + [tail.opaque], None, "vec")
+        ctx.side.update(head_parse=head_parse, head=head, tail=tail, mode="tagged" if use_tag else "plain")
+        entry = "<%s as TaggedCborSerializable>::from_tagged_slice" if use_tag else "<%s as CborSerializable>::from_slice"
+        try:
+            r = ctx.call(entry % path, [slice_ref(data)])
+        except OpaqueRead:
+            job.extra["dropped_opaque_reads"] = job.extra.get("dropped_opaque_reads", 0) + 1
+            raise Infeasible("reads body content")
+        cls, t = classify_head(ctx, head)
+        if cls == "invalid":
+            if not (r.variant == "Err" and r.fields[0].variant == "DecodeFailed"):
+                return [("head-invalid", "an input whose first byte can start no CBOR item is not rejected with DecodeFailed")]
+            return []
+        oc = models.decide_parse(ctx, tail)
+        if oc[0] == "err":
+            if not (r.variant == "Err" and r.fields[0].variant == "DecodeFailed"):
+                return [("head-parse-error", "tag head followed by an unparsable body not reported as DecodeFailed")]
+            return []
+        node, exact = oc[1], oc[2]
+        ctx.side["exact"] = exact
+        if not exact:
+            if not (r.variant == "Err" and r.fields[0].variant == "ExtraneousData"):
+                return [("head-extraneous", "tag head, body and trailing bytes not rejected with ExtraneousData")]
+            return []
+        if not use_tag:
+            if r.variant != "Err":
+                return [("head-untagged", "untagged decoding accepted a tagged item")]
+            return []
+        if not ctx.branch(t == z3.BitVecVal(TAG, 64), "registered-tag"):
+            if r.variant != "Err":
+                return [("head-tag", "tag number other than the registered one accepted")]
+            return []
+        r2 = ctx.call("<%s as AsCborValue>::from_cbor_value" % path, [Lazy(node)])
+        eq = result_eq(ctx, r, r2)
+        if eq is not True and (eq is False or ctx.check(z3.Not(eq))):
+            if eq is not False:
+                ctx.assume(z3.Not(eq))
+            return [("head-layers", "tagged byte-level decoding disagrees with parse-then-convert")]
+        return []
+
+    def on_leaf(ctx, out):
+        if out[0] == "panic":
+            cls, what = "panic:" + out[1].kind, "panics: %s" % out[1]
+        elif out[0] == "ok":
+            if ctx.side.get("exact") and not out[1]:
+                job.accepting += 1
+            else:
+                job.rejecting += 1
+            if not out[1]:
+                return
+            cls, what = out[1][0]
+        else:
+            return
+        key = "%s:%s:%s" % (prop, tname, cls)
+        seen[key] = seen.get(key, 0) + 1
+        if seen[key] > 2:
+            return
+        m = ctx.model()
+        if m is None or "head" not in ctx.side:
+            return
+        hb = bytes(concrete._ev(m, bv(x)) & 0xff for x in ctx.side["head"])
+        oc = ctx.side.get("parsed", {}).get(ctx.side["tail"].opaque.ident)
+        if oc is not None and oc[0] == "ok":
+            body = concrete.encode(concrete.node_to_tree(m, oc[1], {}))
+            tails = [body] if oc[2] else [body + v for v in (b"\x00", b"\x18", b"\x41", b"\xff")]
+        elif oc is not None:
+            tails = [b"\xff", b"\x1c", b"\x5f"]                       # bodies that do not parse
+        else:
+            # the body was never looked at: a body every structure decoder of this type accepts, and junk
+            tails = [bytes.fromhex("8440a0f640"), bytes.fromhex("8340a040"), bytes.fromhex("8540a0f64080"), b"\xf6", b"\xff"]
+        cmds = ["ops api %s %s %s" % (tname, ctx.side.get("mode", "plain"), (hb + t_).hex()) for t_ in tails]
+        job.findings.append({"property": prop, "key": key, "what": "%s: %s" % (tname, what), "op": "ops", "type": tname,
+                             "input_hex": (hb + tails[0]).hex(), "command": cmds[0], "commands": cmds,
+                             "predicted": "PANIC" if cls.startswith("panic") else "MISMATCH", "compare": "startswith"})
+
+    hcommon.run_paths(eng, job, harness, deadline, max_paths, on_leaf, initial=initial, bfs=bfs, slice_s=slice_s)
     job.extra["finding_counts"] = seen
     return job
